@@ -120,7 +120,7 @@ package keeper
 //@   uses forall d: str :: {coinsToDistributeDec[d]} wsumBoundOf(coinsToDistributeDec[d], subDistributor.Destinations, len(subDistributor.Destinations.Shares), subDistributor.Destinations.BurnShare)
 //@   ensures localRemains != nil && off(*localRemains) == 0 && statesHaveAccounts(*localRemains) && len(*localRemains) >= old(len(*states))
 //@   ensures remainsNonNeg(*localRemains)
-//@   ensures payoutOK(*localRemains)
+//@   ensures payoutOK(*localRemains) && distAllocated(distributions) && off(distributions) == 0
 //@   // a primary share that stays on the main account is not booked to any state: the books grow by at most the inflow
 //@   ensures [books-main] forall d: str :: subDistributor.Destinations.PrimaryShare.Type == "MAIN" ==>
 //@       sumRem(fieldRow(*localRemains, "Remains"), d, len(*localRemains)) >= old(sumRem(fieldRow(*states, "Remains"), d, len(*states)))
@@ -192,6 +192,7 @@ package keeper
 //@   requires off(states) == 0 && statesHaveAccounts(states) && remainsNonNeg(states)
 //@   requires forall d: str :: {coinsToDistribute[d]} coinsToDistribute[d] >= 0
 //@   modifies elems(states)
+//@   ensures payoutOK(states) == old(payoutOK(states))
 //@   uses forall row: [int][str]int, pos: int, v: [str]int, d: str, n: int :: {sumRem(store(row, pos, v), d, n)} sumRemStore(row, d, n, pos, v)
 //@   ensures statesHaveAccounts(states) && remainsNonNeg(states)
 //@   ensures forall d: str :: {res[d]} res[d] + sumRem(remRow(states), d, len(states)) == coinsToDistribute[d] + old(sumRem(remRow(states), d, len(states)))
@@ -207,7 +208,7 @@ package keeper
 //@   requires off(states) == 0 && statesHaveAccounts(states) && remainsNonNeg(states)
 //@   modifies $bal, $accTag, $accSeq, $accPub, elems(states)
 //@   ensures existingAccountsUntouched() && $supply == old($supply)
-//@   ensures statesHaveAccounts(states) && remainsNonNeg(states)
+//@   ensures statesHaveAccounts(states) && remainsNonNeg(states) && payoutOK(states) == old(payoutOK(states))
 //@   ensures [books] forall d: str :: {res[d]} unbooked(states, d) == old(unbooked(states, d)) + res[d]
 //@   ensures forall d: str :: {res[d]} res[d] >= 0 && $bal[MAIN()][d] >= old($bal[MAIN()][d])
 //@   prop C03 C14 C10
@@ -225,13 +226,14 @@ package keeper
 //@   requires forall d: str :: {$bal[MAIN()][d]} unbooked(states, d) >= 0 && $bal[MAIN()][d] >= 0
 //@   modifies $bal, $accTag, $accSeq, $accPub, elems(states)
 //@   ensures existingAccountsUntouched() && $supply == old($supply)
-//@   ensures statesHaveAccounts(states) && remainsNonNeg(states)
+//@   ensures statesHaveAccounts(states) && remainsNonNeg(states) && payoutOK(states) == old(payoutOK(states))
 //@   ensures forall d: str :: {res[d]} res[d] >= 0 && $bal[MAIN()][d] >= 0
 //@   ensures [books] forall d: str :: {res[d]} unbooked(states, d) == (mainAmongOf(sources, len(sources)) ? 0 : old(unbooked(states, d))) + res[d]
 //@   prop C03 C14 C10
 //@ loop Keeper.PrepareCoinsToDistribute#1
 //@   invariant 0 <= \i && \i <= len(sources)
 //@   invariant statesHaveAccounts(states) && remainsNonNeg(states) && existingAccountsUntouched() && $supply == old($supply)
+//@   invariant payoutOK(states) == old(payoutOK(states))
 //@   invariant forall d: str :: {allCoinsToDistribute[d]} allCoinsToDistribute[d] >= 0 && $bal[MAIN()][d] >= 0
 //@   invariant forall d: str :: {allCoinsToDistribute[d]} unbooked(states, d) == (mainAmongOf(sources, \i) ? 0 : old(unbooked(states, d))) + allCoinsToDistribute[d]
 
